@@ -151,6 +151,16 @@ func (fc *FnCtx) generateOnce(res *FuncResult) *Frame {
 		if spec.HasMod {
 			fc.checkFrame(exit, spec)
 		}
+		if spec.Flags["noclose"] != "" {
+			sites := fc.w.closeSites(fc.fn)
+			ok := len(sites) == 0
+			descr := "no close() is reachable from this function (static call graph; interface calls resolved by method name)"
+			if !ok {
+				descr = "close() reachable at: " + strings.Join(sites, "; ")
+			}
+			fc.w.assumed["effect analysis: calls of function values that are not closures of the module, and calls into other modules, are assumed not to close channels created by statedb"] = true
+			fc.obls = append(fc.obls, &Obligation{Name: funcKey(fc.fn) + "#effect.noclose", Kind: "effect", Func: funcKey(fc.fn), Live: "true", Goal: tBool(ok).S, Descr: descr, Props: spec.Props})
+		}
 	}
 	return fr
 }
